@@ -127,6 +127,24 @@ Theorem C09_evm_create_atomic :
 Proof. exact evm_do_create_atomic. Qed.
 Print Assumptions C09_evm_create_atomic.
 
+Theorem C09_evm_create2_atomic :
+  forall lim run_sub e s s', do_create2 lim run_sub e s = Continue s' ->
+    (exists v off size salt r,
+        s_stack s = v :: off :: size :: salt :: r /\
+        s_stack s' = c2name (e_block e) (create2_address (e_this e) salt
+                        (mread (mexpand (s_mem s) (Z.to_nat off) (Z.to_nat size)) (Z.to_nat off) (Z.to_nat size))) :: r)
+    \/ s_world s' = s_world s.
+Proof. exact evm_do_create2_atomic. Qed.
+Print Assumptions C09_evm_create2_atomic.
+
+(* CREATE2 hands its creation frame the CREATE counter as it is (a frame that returns the counter it was given
+   leaves it unchanged), whereas CREATE consumes one address *)
+Theorem C09_evm_create2_counter :
+  forall lim e s s' rs, (forall e' w' c, rs e' w' c = RHalt c 0) ->
+    do_create2 lim rs e s = Continue s' -> s_ctr s' = s_ctr s.
+Proof. exact evm_do_create2_counter. Qed.
+Print Assumptions C09_evm_create2_counter.
+
 (* ---- the four situations repaired in sevm.py, at full strength (they are also covered by
    C09_refines, which no longer excludes anything) ---- *)
 
